@@ -85,14 +85,19 @@ class MultitaskTensorCovariance(DifferentiableCovariance):
     if not (numpy.isfinite(hyperparameters[0]) and hyperparameters[0] > 0):
       raise HyperparameterInvalidError()
 
-    self.process_variance = hyperparameters[0]
+    process_variance = hyperparameters[0]
 
     physical_hyperparameters = hyperparameters[:-1]
     physical_hyperparameters[0] = 1.0
-    self.physical_covariance = self.physical_covariance_class(physical_hyperparameters)
+    physical_covariance = self.physical_covariance_class(physical_hyperparameters)
 
     task_hyperparameters = numpy.array([1.0, hyperparameters[-1]])
-    self.task_covariance = self.task_covariance_class(task_hyperparameters)
+    task_covariance = self.task_covariance_class(task_hyperparameters)
+
+    # Nothing is assigned before every part of the vector has been accepted: a rejected vector leaves the kernel unchanged
+    self.process_variance = process_variance
+    self.physical_covariance = physical_covariance
+    self.task_covariance = task_covariance
 
   hyperparameters = property(get_hyperparameters, set_hyperparameters)
 
